@@ -3,7 +3,7 @@ from fractions import Fraction as Fr
 import itertools
 from symnp import core
 from symnp.core import band, bor, bnot, iff, implies
-from .common import POOL, TINY, slice_points, ZIGZAG, TIE7, BUMP6
+from .common import POOL, TINY, slice_points, ZIGZAG, TIE7, BUMP6, get_curve, random_curves
 from .rdpstubs import Stubs, patched, tagged_points, well_formed, STUB_DOC
 
 PROPERTY = 'C06'
@@ -94,7 +94,7 @@ def run(h, case):
         ctxm = patched(h, st)
         G = st.G
     else:
-        X, Y = slice_points(h, SPECIAL.get(case['curve']) or POOL[case['curve']], case['pos'])
+        X, Y = slice_points(h, get_curve(case['curve']), case['pos'])
         n = len(X)
         if h.sym and case.get('t_hint'):
             h.c.hints['t'] = Fr(case['t_hint'])
@@ -157,7 +157,7 @@ def repair(R, case, inputs):
     import numpy as np
     if case['layer'] != 'L0':
         return
-    curve = SPECIAL.get(case['curve']) or POOL[case['curve']]
+    curve = get_curve(case['curve'])
     pts = np.array([[float(a), float(Fr(inputs.get('y%d' % i, b)) if i in case['pos'] else b)] for i, (a, b) in enumerate(curve)], dtype=float)
     n = len(pts)
     rdp, M = R.rdp, R.metrics.Metrics
@@ -175,6 +175,18 @@ def repair(R, case, inputs):
                 alt = dict(inputs)
                 alt[tn] = str(Fr(v))
                 yield alt
+
+
+def realise(case, rnd):
+    """concretiser for abstract counterexamples: grdp / mp_grdp / min_point_rdp on small random integer curves"""
+    n = case['n']
+    for curve in random_curves(n, rnd, 60):
+        if case['fn'] == 'grdp':
+            c2 = dict(layer='L0', fn='grdp', curve=curve, pos=[], distance=case['distance'], order=case['order'], metric=case['metric'], realised_from=dict(n=n))
+            for t in ('3/10', '1/10'):
+                yield c2, dict(t=t)
+        else:
+            yield dict(layer='L0', fn='min_point_rdp', curve=curve, pos=[], nt=2, realised_from=dict(n=n)), dict(t0='1/10', t1='3/10')
 
 
 LEVEL_TEXT = ('Bounded symbolic model checking. L1: the real grdp/_grdp/mp_grdp/min_point_rdp and rdp_fixed run in one symbolic path over kernel stubs (distance, ordering score '
